@@ -117,6 +117,65 @@ pub fn eval_bytes(x: &[u8], how: &str, obs: &mut Obs) -> Result<(), Fail> {
     Ok(())
 }
 
+const FIXED_LONG: usize = 6;
+
+/// Long inputs whose honest parse needs many steps of the same kind: stack use must not grow with their number.
+fn fixed_long(k: usize) -> (Vec<u8>, String) {
+    use crate::refmodel::sml::{write, CBody, CEntry, CFile, CMsg, COctet, CUint, CValue};
+    let msg = |n: usize, body: CBody| CMsg {
+        list_extra: 0,
+        transaction_id: COctet::plain(&[(n >> 8) as u8, n as u8]),
+        group_no: CUint::w(0, 1),
+        abort_on_error: CUint::w(0, 1),
+        body_list_extra: 0,
+        tag_width: 2,
+        tag_extra: 0,
+        body,
+        crc_short: false,
+        crc_extra: 0,
+    };
+    let entry = |n: usize| CEntry { list_extra: 0, obj_name: COctet::plain(&[n as u8]), status: None, val_time: None, unit: None, scaler: None, value: CValue::Uint(CUint::w((n % 251) as u64, 1)), sig: None };
+    let getlist = |n: usize| CBody::GetList { list_extra: 0, client_id: None, server_id: COctet::plain(&[1, 2, 3]), list_name: None, act_sensor_time: None, vals_extra: 0, entries: (0..n).map(entry).collect(), list_sig: None, act_gateway_time: None };
+    match k {
+        0 => (write(&CFile { msgs: (0..60_000).map(|n| msg(n, CBody::Close { list_extra: 0, sig: None })).collect() }).bytes, "fixed-long: 60 000 close responses".into()),
+        1 => (write(&CFile { msgs: vec![msg(1, getlist(60_000))] }).bytes, "fixed-long: one list response with 60 000 entries".into()),
+        2 => (write(&CFile { msgs: (0..2_000).map(|n| msg(n, getlist(30))).collect() }).bytes, "fixed-long: 2 000 list responses of 30 entries".into()),
+        3 => (write(&CFile { msgs: vec![msg(1, CBody::Close { list_extra: 0, sig: Some(COctet::plain(&vec![0x5a; 500_000])) })] }).bytes, "fixed-long: octet string of 500 000 bytes".into()),
+        4 => (vec![0x71; 200_000], "fixed-long: 200 000 nested one-element list headers".into()),
+        _ => (vec![0x80; 200_000], "fixed-long: 200 000 continuation bytes".into()),
+    }
+}
+
+/// Both parsers once more on a thread with the stack std gives every spawned thread (the workers of this
+/// harness have 256 MiB, which would hide one stack frame per message / entry / byte). A stack overflow is
+/// an abort (crash guard); the allocation bounds are measured separately on the worker thread.
+fn ordinary_stack_probe(x: &[u8], how: &str, obs: &mut Obs) -> Result<(), Fail> {
+    obs.class("ordinary-stack-probe");
+    let r = crate::engine::guard::on_ordinary_stack(|| {
+        let a = sml_rs::parser::complete::parse(x).map(|f| f.messages.len()).ok();
+        let mut p = Parser::new(x);
+        let mut n = 0usize;
+        while n < x.len() + 2 {
+            match p.next() {
+                None | Some(Err(_)) => break,
+                Some(Ok(_)) => n += 1,
+            }
+        }
+        let c = Parser::new(x).take(x.len() + 2).count();
+        (a, n, c)
+    });
+    match r {
+        Ok((a, _n, _c)) => {
+            // whether the file is accepted is C03's / C04's statement, not this one's
+            obs.class(if a.is_some() { "ordinary-stack-probe:accepted" } else { "ordinary-stack-probe:rejected" });
+            let _ = how;
+            Ok(())
+        }
+        Err(pi) if pi.in_harness() => Err(Fail::new("harness-panic", format!("HARNESS BUG: {}", pi.describe()))),
+        Err(pi) => Err(Fail::new(format!("panic@{}:{}", pi.file.rsplit('/').next().unwrap_or(""), pi.line), format!("library code panicked (2 MiB stack probe, input: {}): {}", how, pi.describe()))),
+    }
+}
+
 impl Prop for C06 {
     const ID: &'static str = "C06";
     const RULE: &'static str = "G5 with emphasis on lying TLFs: a valid three-message file (or a real meter payload) in which one TLF - at every grammar position: message list, transaction id, body list, value list, entry list, octet strings, integers - is replaced by one declaring 0..20, 2^8+-1, 2^16+-1, 2^24+-1, 2^31+-1, 2^32-3..2^32-1 or >= 2^32 (9..12 nibbles), with / without checksum fix-up; plus general G5 mutations, truncations and random bytes. Oracle: both parsers return (panic capture, crash guard: an allocation request above 1 GiB is refused exactly as a small machine would); the tracking allocator armed around complete::parse sees peak live bytes and largest single request <= 256*|x| + 4096; armed around the whole streaming iteration it sees zero allocation calls; armed around Parser::new(x).collect::<Vec<_>>() (std sizes that vector from the parser's size_hint) it sees at most 4*sizeof(event)*(|x|+2)+4096 bytes; the streaming iteration ends within |x|+2 calls. Non-trivial: the input contains a TLF declaring more than the remaining input (or more than 32 bits), or is a mutated valid file. Distinct = distinct byte strings.";
@@ -139,7 +198,26 @@ impl Prop for C06 {
 
     fn eval(i: &PInput, obs: &mut Obs) -> Result<(), Fail> {
         obs.class(i.origin_class());
+        if i.bytes.len() >= 16_384 {
+            ordinary_stack_probe(&i.bytes, &i.how, obs)?;
+        }
         eval_bytes(&i.bytes, &i.how, obs)
+    }
+
+    fn exhaustive_desc(_tier: Tier) -> String {
+        format!("{} fixed long inputs (60 000 small messages; one list response with 60 000 minimal entries; 2 000 list responses of 30 entries; one octet string of 500 000 bytes; 200 000 nested one-element list headers; 200 000 continuation bytes) through both parsers on a 2 MiB stack, then under the allocation bounds", FIXED_LONG)
+    }
+
+    fn exhaustive(_tier: Tier, shard: usize, nshards: usize, f: &mut dyn FnMut(&PInput) -> bool) {
+        for k in 0..FIXED_LONG {
+            if k % nshards != shard {
+                continue;
+            }
+            let (bytes, how) = fixed_long(k);
+            if !f(&PInput { bytes, how }) {
+                return;
+            }
+        }
     }
 
     fn to_kv(i: &PInput) -> Kv {
